@@ -352,6 +352,8 @@ class Interp:
                 self.assign(st["lhs"], self.ev(st["rhs"], env), env)
             elif k in ("if", "match"):
                 val = self.ev(st, env)
+            elif k == "macro" and st.get("n") == "matches" and not st.get("semi"):
+                val = self.ev(st, env)                             # `matches!(..)` in tail position is the value of the block
             elif k == "macro" or k == "item_fn":
                 continue
             else:
